@@ -336,10 +336,19 @@ func c05Look(s *c05State) c05View {
 
 // complete, sorted rendering of everything the replica-group logic reads or writes
 func c05Dump(d *meta.Data) string {
-	var b strings.Builder
+	b := make([]byte, 0, 512)
+	u := func(name string, v uint64) {
+		b = append(b, name...)
+		b = strconv.AppendUint(b, v, 10)
+	}
 	for i := range d.DataNodes {
 		n := &d.DataNodes[i]
-		fmt.Fprintf(&b, "node{id=%d status=%d ltime=%d conn=%d aliveConn=%d} ", n.ID, n.Status, n.LTime, n.ConnID, n.AliveConnID)
+		u("node{id=", n.ID)
+		u(" status=", uint64(n.Status))
+		u(" ltime=", n.LTime)
+		u(" conn=", n.ConnID)
+		u(" aliveConn=", n.AliveConnID)
+		b = append(b, "} "...)
 	}
 	dbs := make([]string, 0, len(d.PtView))
 	for db := range d.PtView {
@@ -348,33 +357,41 @@ func c05Dump(d *meta.Data) string {
 	sort.Strings(dbs)
 	for _, db := range dbs {
 		for _, pt := range d.PtView[db] {
-			fmt.Fprintf(&b, "pt{%s/%d owner=%d status=%d ver=%d rg=%d} ", db, pt.PtId, pt.Owner.NodeID, pt.Status, pt.Ver, pt.RGID)
+			b = append(b, "pt{"...)
+			b = append(b, db...)
+			u("/", uint64(pt.PtId))
+			u(" owner=", pt.Owner.NodeID)
+			u(" status=", uint64(pt.Status))
+			u(" ver=", pt.Ver)
+			u(" rg=", uint64(pt.RGID))
+			b = append(b, "} "...)
 		}
 	}
-	b.WriteString(c05DumpGroups(d))
-	return b.String()
-}
-
-func c05DumpGroups(d *meta.Data) string {
-	var b strings.Builder
-	dbs := make([]string, 0, len(d.ReplicaGroups))
+	dbs = dbs[:0]
 	for db := range d.ReplicaGroups {
 		dbs = append(dbs, db)
 	}
 	sort.Strings(dbs)
 	for _, db := range dbs {
 		for _, rg := range d.ReplicaGroups[db] {
-			fmt.Fprintf(&b, "rg{%s/%d master=%d peers=[", db, rg.ID, rg.MasterPtID)
+			b = append(b, "rg{"...)
+			b = append(b, db...)
+			u("/", uint64(rg.ID))
+			u(" master=", uint64(rg.MasterPtID))
+			b = append(b, " peers=["...)
 			for i, p := range rg.Peers {
 				if i > 0 {
-					b.WriteByte(' ')
+					b = append(b, ' ')
 				}
-				fmt.Fprintf(&b, "%d:%d", p.ID, p.PtRole)
+				u("", uint64(p.ID))
+				u(":", uint64(p.PtRole))
 			}
-			fmt.Fprintf(&b, "] status=%d term=%d} ", rg.Status, rg.Term)
+			u("] status=", uint64(rg.Status))
+			u(" term=", rg.Term)
+			b = append(b, "} "...)
 		}
 	}
-	return b.String()
+	return string(b)
 }
 
 // ---------------------------------------------------------------- events
@@ -531,9 +548,12 @@ func (s *c05State) evFailOver(i int, st *c05Step) {
 		masterID, newPeers, ok := c05ElectRgMaster(rg, ptInfos, dbPt.Db)
 		if !ok {
 			st.noCandidate++
-			if st.candDown >= 2 {
+			switch {
+			case st.hadCand: // the oracle saw an electable member: not the known "nothing electable" situation
+				s.failedElection = 0
+			case st.candDown >= 2:
 				s.failedElection = 2
-			} else {
+			default:
 				s.failedElection = 1
 			}
 			continue
@@ -731,17 +751,18 @@ func c05Check(before, after *c05State, e c05Event, st *c05Step, panicked string)
 		}
 	}
 	// --- 5. persistence and copies keep the groups exactly
+	dumpAfter := c05Dump(after.d)
 	if rt, err := c05RoundTrip(after.d); err != nil {
 		add("replica_group_changed_by_marshal", "MarshalBinary/UnmarshalBinary failed: %v", err)
-	} else if a, b := c05Dump(after.d), c05Dump(rt); a != b {
+	} else if b := c05Dump(rt); dumpAfter != b {
 		if len(rt.ReplicaGroups[c05DB]) == 0 {
-			add("replica_group_lost_in_marshal", "before: %s\nafter : %s", a, b)
+			add("replica_group_lost_in_marshal", "before: %s\nafter : %s", dumpAfter, b)
 		} else {
-			add("replica_group_changed_by_marshal", "before: %s\nafter : %s", a, b)
+			add("replica_group_changed_by_marshal", "before: %s\nafter : %s", dumpAfter, b)
 		}
 	}
-	if a, b := c05Dump(after.d), c05Dump(after.d.Clone()); a != b {
-		add("replica_group_changed_by_clone", "original: %s\nclone   : %s", a, b)
+	if b := c05Dump(after.d.Clone()); dumpAfter != b {
+		add("replica_group_changed_by_clone", "original: %s\nclone   : %s", dumpAfter, b)
 	}
 	// --- 1a. quality of an election, in every regime: a fail-over that had an electable member must end on an alive node
 	masterAlive := int(v.master) < c05N && v.owner[v.master] != c05NoOne && v.alive[v.owner[v.master]]
@@ -880,6 +901,26 @@ type c05Explorer struct {
 	kept     map[string][]c05Kept // per kind: the shortest (then least) sequences
 	count    map[string]int64
 	samples  int
+	n        struct {
+		eval, elected, noCand, transfers, transferErr, guardNoop, majority int64
+		level                                                              [8]int64
+	}
+}
+
+func (x *c05Explorer) flushCounters() {
+	rep := x.rep
+	rep.Eval(x.n.eval)
+	for l, c := range x.n.level {
+		if c > 0 {
+			rep.Count("sequences_of_length_"+strconv.Itoa(l), c)
+		}
+	}
+	rep.Count("failovers_performed", x.n.elected)
+	rep.Count("failovers_without_electable_member", x.n.noCand)
+	rep.Count("admin_transfers_performed", x.n.transfers)
+	rep.Count("admin_transfers_refused", x.n.transferErr)
+	rep.Count("late_online_for_dead_node_ignored", x.n.guardNoop)
+	rep.Count("sequences_with_majority_down", x.n.majority)
 }
 
 func c05Less(a, b []string) bool {
@@ -958,16 +999,16 @@ func (x *c05Explorer) dfs(s *c05State, prev byte, owned bool) {
 
 func (x *c05Explorer) account(child *c05State, st *c05Step, findings []c05Finding) {
 	rep := x.rep
-	rep.Eval(1)
-	rep.Count("steps_level_"+strconv.Itoa(len(x.seq)), 1)
-	rep.Count("failovers_performed", int64(st.elected))
-	rep.Count("failovers_without_electable_member", int64(st.noCandidate))
-	rep.Count("admin_transfers_performed", int64(st.transfers))
-	rep.Count("admin_transfers_refused", int64(st.transferErr))
-	rep.Count("late_online_for_dead_node_ignored", int64(st.guardNoop))
+	x.n.eval++
+	x.n.level[len(x.seq)]++
+	x.n.elected += int64(st.elected)
+	x.n.noCand += int64(st.noCandidate)
+	x.n.transfers += int64(st.transfers)
+	x.n.transferErr += int64(st.transferErr)
+	x.n.guardNoop += int64(st.guardNoop)
 	if child != nil {
 		if child.hadMajorityDown {
-			rep.Count("sequences_with_majority_down", 1)
+			x.n.majority++
 		}
 		if child.masterNodeWentDown {
 			if rep.DistinctNontrivial(kit.Hash(append([]string{"b"}, x.seq...)...)) && len(x.seq) == x.maxDepth && x.samples < 2 && st.elected > 0 {
@@ -1044,7 +1085,7 @@ func TestVerifC05Master(t *testing.T) {
 		x.maxDepth, x.shardAt = 6, 3
 	}
 	if v := os.Getenv("C05B_DEPTH"); v != "" {
-		if n, e := strconv.Atoi(v); e == nil && n > 0 {
+		if n, e := strconv.Atoi(v); e == nil && n > 0 && n < 8 {
 			x.maxDepth = n
 			if x.shardAt >= n {
 				x.shardAt = n - 1
@@ -1055,6 +1096,7 @@ func TestVerifC05Master(t *testing.T) {
 		}
 	}
 	x.dfs(init0, 0, false)
+	x.flushCounters()
 	x.flush()
 	rep.Max("max_sequence_length_b", int64(x.maxDepth))
 	if x.cut {
